@@ -43,6 +43,18 @@ CHECKS = {
     text="Every ordered conversion pair of 19 typed nodes (f32 and f64, with and without alpha) and the clamp family are run on the boundary lattice of each space: every component at min, max, zero, a billionth of the range inside either bound and at quarter points, hues at every sector edge and at +-180/360. TLC decides from the documented bounds whether the recorded input is in the statement's domain (on a bound, zero, or at least 1e-9 of the range away) and then requires a finite, panic-free result.",
     ref="DESIGN.md section 4 C07",
     note=TRUST + "; documented bounds table in spec/Types.tla; operators, blends, differences and CAM16 are added to this check's surface as their drivers are built (see coverage.explanation of the evidence for what a run covered)"),
+ "C08": dict(
+    technique="TLA+ model of the W3C Compositing and Blending Level 1 formulas in exact dyadic/rational arithmetic (Blend.tla; sqrt only as a squared relation) plus palette's documented Equations table; TLC proves the identities exhaustively on a grid (MC_Blend); the harness enumerates the same grid through the real API; TLC trace validation of every call (TraceBlend.tla)",
+    category="model_checking",
+    text="Identities of the statement proved by TLC on every per-channel case of {0,1/4,...,1}^4 (thorough 1/8) x 11 modes x 6 operators: 0 <= co <= ao <= 1, opaque inputs reduce to B(cs,cb), transparent source over backdrop is the backdrop, opaque source over anything is the source, the eight commutative modes/operators are symmetric (and the others are not), premultiply/unpremultiply round trip. Every recorded call of Blend / Compose / BlendWith (custom function and the 5x100 Equations combinations) / Premultiply (LinSrgb, Xyz, LinLuma fully; six more Premultiply types sampled; opaque, Alpha and PreAlpha forms; f32/f64; 79 k quick / 1.03 M thorough events) must equal the model value within Arith(8) and lie in [0,1]; Alpha results are judged as the un-premultiplied PreAlpha results.",
+    ref="DESIGN.md section 4 C08",
+    note=TRUST + "; the range clause is false for `plus` on the W3C formulas themselves (TLC counterexample in the evidence); palette returns the unclamped colour sum with clamped alpha: known finding C08-plus-colour-unclamped; inputs are dyadic (k/4, k/8, k/256), non-dyadic inputs only for premultiply/unpremultiply; TLC does not emit the cases, the harness enumerates the same grid and the counts are compared"),
+ "C10": dict(
+    technique="exact dyadic operator semantics in TLA+ (Ops.tla: mix, lighten/saturate relative and fixed, HWB forms, hue shift/set, component arithmetic, colour schemes; capability table); TLC proves the operator algebra exhaustively on a component x factor grid (MC_Ops); TLC trace validation of every recorded call with the adjacent-group 'same call, same result' machine (TraceOps.tla)",
+    category="model_checking",
+    text="MC_Ops proves on the model, for every grid case x factors {-1,-1/2,0,1/4,1/2,1,3/2,2}: end points, factor saturation, betweenness, shorter way round, monotone toward and reaching the limit, range preservation, untouched components, darken = lighten(-f), scheme rotation algebra. All 196 (operator family, colour type) pairs of 19 types x f32/f64 are executed in every existing form (by value, assign, slice of three, Alpha by value and assign, PreAlpha, blanket Darken/Desaturate): the by-value result is compared with the exact model within Arith(16) plus range, untouched, betweenness and monotone-sweep clauses; every other form must be bit-identical, with transparency per the wrapper's rule. Quick 106 k calls, thorough 2.3 M.",
+    ref="DESIGN.md section 4 C10",
+    note=TRUST + "; the harness' macro table (compared with Ops!Caps by TLC); bit identity ignores the sign of zero; Clamp's value semantics is decided by C03; the quick tier deals lattice colours alternately to f32/f64; amounts outside [-1,1] on the HWB types are judged for agreement of forms only"),
  "C11": dict(
     technique="explicit TLA+ model of hues (Hue.tla: exact arithmetic modulo 360 on the dyadic each float denotes, no trigonometry) checked exhaustively by TLC on integer angles and all 8-bit hues; TLC trace validation of recorded calls of the hue API on exact values",
     category="model_checking",
@@ -67,12 +79,24 @@ CHECKS = {
     text="For HSV/HSL/HWB the containment is a theorem of the integer hexcone model, checked by TLC for every sector, sector boundary and lattice value (one state per point). For all seven spaces the real conversions of a cylinder lattice (hues every 15 degrees - 3 in thorough - plus sector edges and the Oklab hues of the sRGB primaries and secondaries; saturation/value/lightness/whiteness/blackness including the bounds and a billionth inside) to sRGB, and of an RGB lattice plus random and boundary colours into each space and back, are judged by TLC: components in [-tol, 1+tol], bounds kept up to the slack, round trip within 2^-16 (f64) / 2^-13 (f32). Tolerances are named in TraceGamut.tla (rounding only for the hexcone spaces; about twice the pinned tree's approximation error for Ok* and HSLuv) and the evidence reports the largest excursion seen.",
     ref="DESIGN.md section 4 C15",
     note=TRUST + "; tolerance table of TraceGamut.tla; known findings C15-hsluv-white-saturation and C15-f32-ok-blue-edge"),
+ "C19": dict(
+    technique="explicit TLA+ model of the samplers (Random.tla: containment on exact dyadics with arithmetic modulo 360; the volume clause as the deterministic inverse-CDF relation of the cone / bicone volume measure between the raw variates the sampler consumed and the sample, for some assignment of variates to coordinates) checked by TLC on a 4^3 grid in exact arithmetic with case emission (MC_Random); TLC trace validation of every recorded sample (TraceRandom.tla)",
+    category="model_checking",
+    text="TLC proves on the model that the height CDF equals the normalised integral of the cross-section area so that each of the 64 grid cells has pre-image measure volume/total (never true for the coordinate-uniform sampler), that the CDFs are increasing bijections (cone v^3, bicone 4l^3 / 1-4(1-l)^3), and that the relation accepts the exact inverse and rejects coordinate-uniform, wrong-hue, off-arc and out-of-range events. All 81 (thorough 625) grid variate tuples emitted by TLC are fed to the real samplers through a scripted generator, next to 40 (200) seeded streams: Standard and Uniform::new/new_inclusive for 20 colour types x f32/f64, plain and Alpha-wrapped, ends from a lattice (whole range, equal ends, narrow boxes, 16 hue arcs incl. wrapping ones, HWB ends crossing in value/saturation); 23 k events quick, 279 k thorough. TLC requires bounds / betweenness (HWB on the HSV image) / hue on the arc on exact values, and for hsv, okhsv, hsl, okhsl, hwb, okhwb the inverse-CDF relation.",
+    ref="DESIGN.md section 4 C19 and section 5",
+    note=TRUST + "; rand 0.8's scalar Standard/Uniform distributions are uniform and draw one generator output per scalar (variates re-drawn from clones of the generator); distributional uniformity is replaced by the deterministic inverse-CDF relation; volume clause only for the six spaces the statement names (cylinders and HSLuv: containment only); -coverage unusable for MC_Random (cost model out of memory), vacuity by exact state count; low.raw > high.raw, arcs > 360 degrees, HWB ends with value < 1/4 not driven; known finding C19-f32-bicone-top-collision"),
  "C20": dict(
     technique="TLA+ model of the serde data model as a tree type (Serde.tla: Ser from a type table, the alpha-flattening rule per tree shape, De as partial inverse, as_array/as_uint); TLC checks De(Ser(v))=v, permutation invariance, flatness and absence of metadata exhaustively and emits every deserializer case, replayed into palette through a recording Deserializer, serde_json, ron and a compact stream; TLC trace validation of every recorded tree, JSON text shape and round trip",
     category="model_checking",
     text="All 20 serializable colour structs (plus 3 harness structs of other arities) x plain/Alpha/PreAlpha x f32/f64 (u8/u16 for Rgb, Luma). Extremes in every position plus random finite values are serialized through a recording serializer (exact data-model calls incl. announced lengths), serde_json and ron (struct, named, array and holder forms). TLC requires the tree to equal Ser of the type table with alpha flattened at the same level, the JSON key set = declared fields (+alpha), depth 1, hue a bare number, no standard/white_point/meta, and bit-identical round trips (serde_json+f64: 16 ulp). Every TLC-enumerated case (all field permutations, map/seq/tuple forms, missing alpha, missing field, wrong arity, unknown field; with/without the optional-alpha helper) must end as De prescribes. as_array/as_uint must equal the cast array / packed integer. Quick: 2.6 k cases + 54 k events; thorough: 18 k cases + 1.35 M events.",
     ref="DESIGN.md section 4 C20",
     note=TRUST + "; the harness' recording Serializer/Deserializer and compact token stream as faithful serde formats; serde/serde_json/ron as the meaning of 'the format'; harness-computed ulp distance; unknown extra fields, surplus sequence elements, duplicate keys and string-keyed maps under Alpha are left open; known finding C20-alpha-struct-compact-stream"),
+ "C17": dict(
+    technique="TLA+ lane model (Simd.tla: SIMD colour = function lane -> scalar colour, Pack/Unpack as transposition, lifted operations, masks as functions lane -> BOOLEAN, named agreement relation); TLC checks pack/unpack, select, De Morgan and IEEE comparison laws for 2/4/8 lanes and enumerates the lane groupings (all class pairs for 2 lanes, Latin squares for 4 and 8), replayed on the real wide conversions; TLC trace validation of every lane, pack, mask, operator and f32-vs-f64 event",
+    category="model_checking",
+    text="For the 19 colour types of the D65/sRGB family and wide::{f32x4, f32x8, f64x2, f64x4} the existence of every conversion (170 pairs per vector type) and operator (194 impls per vector type) is decided at compile time. TLC enumerates 1267 lane groupings over 10 families of branch classes (max channel and ties, transfer-function segment, join of f(t) per channel, zero chroma and hue quadrant, hue sector, grey/black/white, luma segment), so the lanes of one SIMD call take different branches. Each group is run as ONE SIMD call (packed with From<[Color<T>;N]>, unpacked with Into) plus one scalar call per lane. TLC requires each lane to agree with the scalar result in own coordinates, conditioning-aware, at 2^-16 for f32 and 2^-40 for f64, the XYZ image deciding where coordinates are ill-conditioned. Packing, unpacking, the six comparisons, select, lazy_select, & | ^ !, is_true/is_false and mask-valued operators must be bit-identical and equal to the model. f32 against f64 is judged on the scalar universe with a per-pair calibrated tolerance (2^-12..2^-19). Quick: 24 k events; thorough: 417 k.",
+    ref="DESIGN.md section 4 C17",
+    note=TRUST + "; the scalar implementation is the reference of each lane (what it must compute is C02's); tolerances LaneBits/LaneHubBits/PrecTable of spec/Simd.tla (calibrated, >= 8x margin); the code's own f64 conversion to Xyz as abstraction function; PreAlpha packing and *Assign operator forms are not driven on wide types; Round::round on wide types (ties to even) is unreachable from colour code and not asserted"),
  "C18": dict(
     technique="TLA+ reference machine (Soa.tla); TLC enumerates all operation histories, replayed on the real collections; TLC trace validation of every recorded call",
     category="model_checking",
